@@ -25,23 +25,14 @@ def T(tier, quick, thorough):
     return quick if tier == "quick" else thorough
 
 
-# ---------------------------------------------------------------------------------------------------
-@check("C05")
-def c05(tier, seed, t0):
-    m = Merged(); wd = R.workdir("C05")
-    n = T(tier, 400000, 50000000)
-    R.run_inv(Inv("kernel", n, "plain", timeout=T(tier, 600, 7200)), seed, wd, m)
-    R.run_inv(Inv("kernel", T(tier, 50000, 2000000), "asan", timeout=T(tier, 600, 7200), first=n), seed, wd, m)
-    regions = ["interior", "edge_ab", "edge_bc", "edge_ca", "vertex_a", "vertex_b", "vertex_c"]
-    floors = {"cases_in_region_" + r: (m.bins.get("region:" + r, 0), 0.01 * m.evaluations) for r in regions}
-    return R.finish("C05", tier, seed, m,
-                    "query point constructed per Voronoi region (7 regions incl. region boundaries, both sides of the plane) x distance "
-                    "class (on the triangle, 1e-9..1e-4, comparable, far) x triangle aspect 1..1e3 x scale 1e-7..1e2 x offset from origin "
-                    "0..1e3 diameters x random rigid embedding; a case is non-trivial when the triangle is non-degenerate "
-                    "(area > 1e-7 diam^2); distinct = distinct input coordinate hashes; bins count the region as classified by the oracle",
-                    t0, ["own long-double closest-point oracle (plane projection + 3 clamped segment projections) is correct",
-                         "tolerance for the closest point is max(1e-9 L, 256 eps cond diam) with cond=(D/diam)^2 (diam^2/2A)^2: forward error of any dot-product evaluation"],
-                    floors=floors)
+# Every module checks/Cxx.py defines ID, MANIFEST (category, technique, level text, level note, design ref)
+# and run(tier, seed, t0) -> exit code.
+def load_checks():
+    import importlib, glob
+    sys.path.insert(0, VERIF)
+    for p in sorted(glob.glob(os.path.join(VERIF, "checks", "C*.py"))):
+        mod = importlib.import_module("checks." + os.path.basename(p)[:-3])
+        CHECKS[mod.ID] = mod.run
 
 
 # ---------------------------------------------------------------------------------------------------
@@ -54,6 +45,7 @@ def main():
     a = ap.parse_args()
     if a.replay:
         return replay(a.prop, a.replay)
+    load_checks()
     if a.prop not in CHECKS:
         print("unknown property", a.prop); return 2
     t0 = time.time()
